@@ -58,6 +58,24 @@ type Descriptor struct {
 	resultFields   []reflection.ResultField
 	isParamObject  bool
 	paramFields    []reflection.ParamField
+
+	// family lists every descriptor created by the same registration call
+	// (one per result-object field, return value or interface alias). All of
+	// them share one constructor invocation.
+	family []*Descriptor
+
+	// resultFieldName is the result-object field this descriptor stands for
+	resultFieldName string
+}
+
+// sibling returns the descriptor of the same registration that matches.
+func (d *Descriptor) sibling(match func(*Descriptor) bool) *Descriptor {
+	for _, s := range d.family {
+		if match(s) {
+			return s
+		}
+	}
+	return nil
 }
 
 // newDescriptor creates a new descriptor from a service with the given lifetime and options
